@@ -26,6 +26,7 @@ CHECKS = {
         "assumptions": ["delegate executor and completion of its futures are environment (scripted Manual executor)"],
     },
     "C05": {
+        "extra_props": ["Props/C05_machine.v"],
         "module": "p_c05",
         "gen_lemmas": ["sleep_time_spec", "should_retry_spec", "exception_policy_runs", "get_next_job_spec"],
         "rule": "seeded random scenarios (1-3 submissions from 1-2 client threads, outcome scripts per attempt, "
